@@ -1188,7 +1188,7 @@ def _paths(stmts: List[ast.stmt], limit: int = 64) -> List[Tuple[List[str], List
     return [(c, a) for c, a, alive in paths if alive]
 
 
-@rule("D4b", "DERIVED-HEIGHT: MAX derives its height as floor(8 * length / width) and refuses a length that is not a whole number of rows", ["C18", "C16"], floor=2)
+@rule("D4b", "DERIVED-HEIGHT: MAX derives its height as floor(8 * length / width) and refuses a length that is not a whole number of rows", ["C18", "C16", "C19"], floor=2, default_props=["C18", "C16"])
 def d4b(ctx: Ctx):
     D = decoderfacts(ctx)
     fn = D.fn("maxtoppm", "convert")
@@ -1254,7 +1254,8 @@ def d4b(ctx: Ctx):
             x = resolve_alias(fn, x) if not (isinstance(x, ast.Name) and x.id == lenvar) else x
             if isinstance(y, ast.Name) and y.id == lenvar and isinstance(x, ast.BinOp) and isinstance(x.op, ast.FloorDiv):
                 okc = any(poly_eval(x.left, {}) == Poly.atom(cols_p) * Poly.atom(h_) for h_ in height_names) and poly_eval(x.right, {}).is_const() == 8
-    ctx.ob("maxtoppm:length-consistency", okc, "" if okc else "the test that the derived height reproduces the length field is gone or changed", file=rel, line=chk.lineno if chk else fn.lineno)
+    # (the refusal of a length field that does not fit the width is also how a damaged header is reported: C19)
+    ctx.ob("maxtoppm:length-consistency", okc, "" if okc else "the test that the derived height reproduces the length field is gone or changed", file=rel, line=chk.lineno if chk else fn.lineno, props=["C18", "C16", "C19"])
     # the length field only matters when the height is derived from it: with a height given by -r the refusal must not fire
     if chk is not None and any(isinstance(x, ast.Return) for x in ast.walk(chk)):
         par_ = {id(c): p_ for p_ in ast.walk(fn) for c in ast.iter_child_nodes(p_)}
@@ -1519,6 +1520,36 @@ def d6(ctx: Ctx):
                                 file=rel,
                                 line=i_.lineno,
                             )
+            # a test that weighs a run length against the samples left and gives up (break / raise): a run that ends exactly
+            # with the picture (length == samples left) is a valid last run - the test must let it through
+            from .decoders import IntEvalError as _IEE6, int_eval as _ie6
+
+            ctrs_ = {_decrement_target(x) for fl in ast.walk(wl) if isinstance(fl, ast.For) for x in ast.walk(fl)} - {None}
+            runs_ = {fl.iter.args[0].id for fl in ast.walk(wl) if isinstance(fl, ast.For) and isinstance(fl.iter, ast.Call) and call_name(fl.iter) == "range" and len(fl.iter.args) == 1 and isinstance(fl.iter.args[0], ast.Name)}
+            for i_ in ast.walk(wl):
+                if not (isinstance(i_, ast.If) and any(isinstance(b, (ast.Break, ast.Raise)) or (isinstance(b, ast.Return)) for x_ in i_.body for b in ast.walk(x_))):
+                    continue
+                nm_ = names_loaded(i_.test)
+                c_, r_ = nm_ & ctrs_, nm_ & runs_
+                if len(c_) != 1 or len(r_) != 1 or nm_ - c_ - r_:
+                    continue
+                cv, rv = next(iter(c_)), next(iter(r_))
+                try:
+                    at_fit = bool(_ie6(i_.test, {cv: 5, rv: 5}))
+                    at_less = bool(_ie6(i_.test, {cv: 5, rv: 3}))
+                except _IEE6:
+                    continue
+                okx = not at_fit and not at_less
+                found += 0
+                ctx.ob(
+                    f"{dec}.run-fits:{rv}",
+                    okx,
+                    "" if okx else f"`if {unparse(i_.test)}` gives up on a run of {rv} = {'5' if at_fit else '3'} samples when {cv} = 5 are left: a run that " + ("ends exactly with the picture" if at_fit and not at_less else "fits into the picture") + " is a valid encoding, its samples are dropped and the image is short",
+                    file=rel,
+                    line=i_.lineno,
+                    props=["C17", "C18", "C19"],
+                    witness="" if okx else "a picture whose last run is escape-coded",
+                )
             # the same accounting written per run: `for _ in range(n): write ...` followed by `counter -= n` in the while body.
             # Nothing can stop the repeat at the end of the picture in this form: it is the unguarded repeat loop.
             for k_, st in enumerate(wl.body):
@@ -1725,6 +1756,9 @@ def d12(ctx: Ctx):
     found: Dict[int, Tuple] = {}
     named: Dict[int, Dict[str, int]] = {}
     for n in ast.walk(st):
+        # (the type byte may be named first: `layout = data[1]; if layout == 0:`)
+        if isinstance(n, ast.If) and isinstance(n.test, ast.Compare) and len(n.test.ops) == 1 and isinstance(n.test.left, ast.Name) and isinstance(resolve_alias(st, n.test.left), ast.Subscript):
+            n.test.left = copy.deepcopy(resolve_alias(st, n.test.left))
         if isinstance(n, ast.If) and isinstance(n.test, ast.Compare) and len(n.test.ops) == 1 and isinstance(n.test.left, ast.Subscript) and isinstance(n.test.left.slice, ast.Constant) and n.test.left.slice.value == 1 and isinstance(n.test.comparators[0], ast.Constant):
             k = n.test.comparators[0].value
             vals = {}
@@ -1978,7 +2012,11 @@ def d12(ctx: Ctx):
             elif isinstance(tt, ast.Compare) and isinstance(tt.comparators[0], ast.Name) and not isinstance(tt.ops[0], ast.Lt):
                 bad_w.append(unparse(tt))
         ranged = [n for n in ast.walk(un) if isinstance(n, ast.For) and isinstance(n.iter, ast.Call) and call_name(n.iter) == "range"]
-        bad_r = [unparse(n.iter) for n in ranged if not (len(n.iter.args) == 1 and isinstance(n.iter.args[0], ast.Name))]
+        # (`range(count - 128)` / `range(count & 0x7F)`: the offset itself is judged by `minus128` above)
+        def _count_expr(a_):
+            return isinstance(a_, ast.Name) or (isinstance(a_, ast.BinOp) and isinstance(a_.op, (ast.Sub, ast.BitAnd)) and isinstance(a_.left, ast.Name) and a_.left.id == cvar and isinstance(a_.right, ast.Constant))
+
+        bad_r = [unparse(n.iter) for n in ranged if not (len(n.iter.args) == 1 and _count_expr(n.iter.args[0]))]
         seen_loops = bool(whiles) or bool(ranged)
         okw = not bad_w and not bad_r
         ctx.idiom("unsquash.loop-bounds", seen_loops, okw, "" if okw else f"the repeat / literal loops no longer run exactly `count` times ({bad_w + bad_r})", file=rel, line=un.lineno, props=["C17"])
@@ -2050,7 +2088,7 @@ def _moves_on_all_paths(body: List[ast.stmt], v: str) -> bool:
     return False
 
 
-@rule("D9", "STREAM-ARGS: file arguments default to the binary standard streams; skip is consumed before the first header read", ["C18"], floor=8)
+@rule("D9", "STREAM-ARGS: file arguments default to the binary standard streams; skip is consumed before the first header read", ["C18", "C12"], floor=8, default_props=["C18"])
 def d9(ctx: Ctx):
     D = decoderfacts(ctx)
     for dec in ("hrstoppm", "maxtoppm", "pixtopgm", "mgetoppm", "cm3toppm", "rattoppm"):
@@ -2065,7 +2103,15 @@ def d9(ctx: Ctx):
                 mode = t.args[0].value if t.args and isinstance(t.args[0], ast.Constant) else ""
                 name = n.args[0].value
                 okm = mode in ("rb", "wb")
-                ctx.ob(f"{dec}.{name}:binary-mode", okm, "" if okm else f"`{name}` is opened in mode {mode!r}: bytes above 127 / line ends are translated", file=rel, line=n.lineno)
+                appends = isinstance(mode, str) and "a" in mode
+                ctx.ob(
+                    f"{dec}.{name}:binary-mode",
+                    okm,
+                    "" if okm else (f"`{name}` is opened in mode {mode!r}: the picture is appended to whatever the output file already holds - the same input gives different files depending on what was decoded there before" if appends else f"`{name}` is opened in mode {mode!r}: bytes above 127 / line ends are translated"),
+                    file=rel,
+                    line=n.lineno,
+                    props=["C18", "C12"] if appends else None,
+                )
                 d = kw.get("default")
                 if d is not None:
                     want = "sys.stdin" if mode.startswith("r") else "sys.stdout"
@@ -2239,6 +2285,67 @@ def d16(ctx: Ctx):
             "" if ok else f"`{unparse(bad[0])[:80]}` writes to standard output, which carries the picture when no output file is named: the piped image gets extra bytes and differs from the file written for the same input",
             file=rel,
             line=bad[0].lineno if bad else 1,
+        )
+
+
+RAT_LAYOUT = {"escape": 0, "packed": 1, "palette": 3}  # RAT header: escape code, packed flag, border colour, 16 palette bytes
+
+
+@rule("D15b", "HEADER-LAYOUT (RAT): the escape code, the packed flag and the palette are taken from header offsets 0, 1 and 3..18 (offset 2, the border colour, belongs to no picture datum)", ["C18", "C16", "C19"], floor=3, default_props=["C18", "C16"])
+def d15b(ctx: Ctx):
+    D = decoderfacts(ctx)
+    fn = D.fn("rattoppm", "convert")
+    rel = DECODERS["rattoppm"]
+    outs = _out_names(fn)
+    off = 0
+    offsets: Dict[str, Tuple[int, int, int]] = {}  # name -> (offset, size, line)
+    for st in fn.body:
+        if isinstance(st, ast.FunctionDef):
+            continue
+        if any(_is_out_write(c, outs) for c in ast.walk(st)):
+            break
+        reads = [c for c in ast.walk(st if not isinstance(st, ast.If) else st.test) if isinstance(c, ast.Call) and call_name(c) == "read" and isinstance(c.func, ast.Attribute)]
+        if isinstance(st, ast.If) and any(isinstance(c, ast.Call) and call_name(c) == "read" and isinstance(c.func, ast.Attribute) for b in st.body + st.orelse for c in ast.walk(b)):
+            raise AnalysisError("D15b", "rattoppm.header", f"conditional header read at line {st.lineno}: cannot lay out the header")
+        if not reads:
+            continue
+        ctx.need(len(reads) == 1 and not isinstance(st, (ast.For, ast.While)), "rattoppm.header", f"header read at line {st.lineno} is not a plain statement (cannot lay out the header)")
+        size = reads[0].args[0].value if reads[0].args and isinstance(reads[0].args[0], ast.Constant) else None
+        ctx.need(isinstance(size, int), "rattoppm.header", f"read size at line {st.lineno} is not a constant")
+        if isinstance(st, ast.Assign) and len(st.targets) == 1 and isinstance(st.targets[0], ast.Name):
+            offsets[st.targets[0].id] = (off, size, st.lineno)
+        off += size
+    roles: Dict[str, str] = {}
+    # packed: tested by a gate that gives up on the file
+    for n in fn.body:
+        if isinstance(n, ast.If) and any(isinstance(x, ast.Raise) or (isinstance(x, ast.Return) and isinstance(x.value, ast.Constant) and x.value.value is False) or (isinstance(x, ast.Call) and call_name(x) == "exit") for b in n.body for x in ast.walk(b)):
+            tv = [x for x in names_loaded(resolve_alias(fn, n.test) if isinstance(n.test, ast.Name) else n.test) if x in offsets]
+            if len(tv) == 1:
+                roles.setdefault("packed", tv[0])
+    # escape: compared with a byte of the stream inside the decoding loop
+    for wl in [n for n in ast.walk(fn) if isinstance(n, ast.While)]:
+        for c in ast.walk(wl):
+            if isinstance(c, ast.Compare) and len(c.ops) == 1 and isinstance(c.ops[0], (ast.Eq, ast.NotEq)):
+                for x in (c.left, c.comparators[0]):
+                    if isinstance(x, ast.Name) and x.id in offsets and offsets[x.id][1] == 1:
+                        roles.setdefault("escape", x.id)
+    for nm, (o_, sz_, _) in offsets.items():
+        if sz_ == 16:
+            roles.setdefault("palette", nm)
+    for role, want in RAT_LAYOUT.items():
+        rv = roles.get(role)
+        if rv is None:
+            ctx.undecided(f"rattoppm.{role}", "the header field with this role was not recognised", file=rel, line=fn.lineno, props=["C18", "C16"])
+            continue
+        got = offsets[rv][0]
+        ok = got == want
+        ctx.ob(
+            f"rattoppm.{role}@{want}",
+            ok,
+            "" if ok else f"`{rv}` ({role}) is read from header offset {got}; the RAT header keeps it at offset {want}" + (": the border colour decides whether the file is accepted" if role == "packed" and got == 2 else ""),
+            file=rel,
+            line=offsets[rv][2],
+            props=["C18", "C16", "C19"],
         )
 
 
